@@ -143,6 +143,121 @@ theorem src_copy_switches (s : StateX) (i : Nat) (attrs conn : Bool) (m : Mesh) 
   simp only
   cases e.attr <;> cases attrs <;> simp [pushPlain, alloc]
 
+/-! ### `from_arrays`, `reorder_vertices` (round 6) -/
+
+/-- when `from_arrays` succeeds: at most 3 columns, every index below the number of rows, edges in 2 columns -/
+def faOk (V : ArrV) (E F C : Option ArrI) : Bool :=
+  decide (V.cols ≤ 3) && E.all (fun e => !e.anyGe V.rows.length && decide (e.cols = 2)) &&
+  F.all (fun f => !f.anyGe V.rows.length) && C.all (fun c => !c.anyGe V.rows.length)
+
+def faRows (X : Option ArrI) : List (List Nat) := match X with | some x => x.rows | none => []
+
+/-- `from_arrays` as written, statement by statement, is: refuse (raise) unless `faOk`, else a NEW mesh whose coordinates are
+the rows of `V` (padded with zero columns up to 3) stored in FRESH cells — `list(np.array(V))` is a copy — with the given elements;
+`raw` makes no difference to the data -/
+theorem fromArrays_bridge (V : ArrV) (E F C : Option ArrI) (raw : Bool) (s : State) :
+    Generated.C06Src.fromArrays V E F C raw s =
+      if faOk V E F C then
+        some (newMesh s (if V.cols < 3 then V.padRight (3 - V.cols) else V).toV3 (faRows E) (faRows F) (faRows C))
+      else none := by
+  have hpl : (V.padRight (3 - V.cols)).rows.length = V.rows.length := by simp [ArrV.padRight]
+  unfold Generated.C06Src.fromArrays faOk
+  by_cases h3 : V.cols < 3
+  · have hle : V.cols ≤ 3 := by omega
+    cases E <;> cases F <;> cases C <;>
+      simp only [h3, hle, hpl, decide_true, if_true, Option.all_none, Option.all_some, Bool.true_and, Bool.and_true, instanciate,
+        faRows, ite_self, List.nil_append] <;>
+      (repeat' split) <;> simp_all
+  · by_cases h4 : V.cols = 3
+    · have hle : V.cols ≤ 3 := by omega
+      have hne : ¬ V.cols ≠ 3 := by omega
+      cases E <;> cases F <;> cases C <;>
+        simp only [h3, hle, hne, decide_true, decide_false, if_true, if_false, Bool.false_eq_true, Option.all_none, Option.all_some,
+          Bool.true_and, Bool.and_true, instanciate, faRows, ite_self, List.nil_append] <;>
+        (repeat' split) <;> simp_all
+    · have hle : ¬ V.cols ≤ 3 := by omega
+      have hne : V.cols ≠ 3 := h4
+      simp [h3, hle, hne]
+
+/-- a mesh made by `from_arrays` as written shares no vector with any existing mesh, and the state stays alias-free -/
+theorem fromArrays_alias_free (V : ArrV) (E F C : Option ArrI) (raw : Bool) (s s' : State) (haf : AliasFree s)
+    (h : Generated.C06Src.fromArrays V E F C raw s = some s') : AliasFree s' := by
+  rw [fromArrays_bridge] at h
+  by_cases hok : faOk V E F C = true
+  · rw [if_pos hok] at h
+    injection h with h
+    rw [← h]
+    exact aliasFree_newMesh s _ _ _ _ haf
+  · rw [if_neg hok] at h; cases h
+
+/-- `reorder_vertices` as written: the new mesh is appended; it lists the STORED VECTOR OBJECTS of the input in the order
+`new_indices` (vertex `v` of the result IS the object `mesh.vertices[new_indices[v]]` — nothing is copied, the heap is
+untouched), so its coordinates are the input's, permuted, and every element index is relabelled by the inverse permutation -/
+theorem reorder_spec (mi : Nat) (p : List Nat) (s : State) (m : Mesh) (hm : s.meshes[mi]? = some m)
+    (hlen : p.length = m.verts.length) (hp : ∀ x ∈ p, x < m.verts.length) :
+    ∃ m', (Generated.C06Src.reorderVertices mi p s).meshes = s.meshes ++ [m'] ∧
+      (Generated.C06Src.reorderVertices mi p s).heap = s.heap ∧
+      m'.verts = p.map (fun x => m.verts.getD x 0) ∧
+      (∀ r ∈ m'.verts, r ∈ m.verts) ∧
+      coords s.heap m' = p.map (fun x => (coords s.heap m).getD x V3.zero) ∧
+      m'.edges = m.edges.map (fun e => e.map (fun u => (argsortPerm p).getD u 0)) ∧
+      m'.faces = m.faces.map (fun e => e.map (fun u => (argsortPerm p).getD u 0)) ∧
+      m'.cells = m.cells.map (fun e => e.map (fun u => (argsortPerm p).getD u 0)) := by
+  have hverts : (idVertices s mi).map (fun v => m.verts.getD (p.getD v 0) 0) = p.map (fun x => m.verts.getD x 0) := by
+    simp only [idVertices, nVerts, hm, ← hlen]
+    apply List.ext_getElem
+    · simp
+    · intro i h1 h2
+      simp only [List.length_map, List.length_range] at h1
+      simp [List.getD_eq_getElem?_getD, List.getElem?_eq_getElem h1]
+  refine ⟨{ verts := p.map (fun x => m.verts.getD x 0),
+            edges := m.edges.map (fun e => e.map (fun u => (argsortPerm p).getD u 0)),
+            faces := m.faces.map (fun e => e.map (fun u => (argsortPerm p).getD u 0)),
+            cells := m.cells.map (fun e => e.map (fun u => (argsortPerm p).getD u 0)) }, ?_, ?_, rfl, ?_, ?_, rfl, rfl, rfl⟩
+  · simp only [Generated.C06Src.reorderVertices, hm, hverts]
+  · simp only [Generated.C06Src.reorderVertices, hm]
+  · intro r hr
+    simp only [List.mem_map] at hr
+    obtain ⟨x, hx, rfl⟩ := hr
+    have hx' := hp x hx
+    rw [List.getD_eq_getElem?_getD, List.getElem?_eq_getElem hx']
+    exact List.getElem_mem hx'
+  · simp only [coords, List.map_map]
+    apply List.map_congr_left
+    intro x hx
+    have hx' := hp x hx
+    simp [List.getD_eq_getElem?_getD, List.getElem?_eq_getElem hx', hx']
+
+/-- … and although the reordered mesh SHARES its vectors with its input, every transform as written (they all rebind) applied to
+it leaves the input's coordinates alone: `translate` of the reordered mesh (index `s.meshes.length`) -/
+theorem reorder_then_translate_isolated (mi : Nat) (p : List Nat) (t : V3) (s : State) (m : Mesh) (hm : s.meshes[mi]? = some m)
+    (hwf : WF s) (hlen : p.length = m.verts.length) (hp : ∀ x ∈ p, x < m.verts.length) :
+    let s1 := Generated.C06Src.reorderVertices mi p s
+    let s2 := Generated.C06Src.translate s.meshes.length t s1
+    s2.meshes[mi]? = some m ∧ coords s2.heap m = coords s.heap m := by
+  intro s1 s2
+  obtain ⟨m', e1, e2, e3, e4, _⟩ := reorder_spec mi p s m hm hlen hp
+  have hwf1 : WF s1 := by
+    intro x hx r hr
+    have hx' : x ∈ s.meshes ++ [m'] := by rw [← e1]; exact hx
+    rw [show s1.heap = s.heap from e2]
+    rcases List.mem_append.1 hx' with h0 | h0
+    · exact hwf x h0 r hr
+    · simp only [List.mem_singleton] at h0
+      subst h0
+      exact hwf m (mem_of_getElem? hm) r (e4 r hr)
+  have hmi : mi < s.meshes.length := by
+    rw [List.getElem?_eq_some_iff] at hm; exact hm.1
+  have hnew : s1.meshes[s.meshes.length]? = some m' := by
+    rw [show s1.meshes = s.meshes ++ [m'] from e1]; simp
+  have hold : s1.meshes[mi]? = some m := by
+    rw [show s1.meshes = s.meshes ++ [m'] from e1, List.getElem?_append_left hmi]; exact hm
+  have hs2 : s2 = mapRebind (fun q => q.add t) s1 s.meshes.length := translate_bridge _ _ _ hwf1
+  obtain ⟨_, _, h3⟩ := mapRebind_spec (fun q => q.add t) s1 s.meshes.length m' hnew hwf1
+  obtain ⟨a1, a2⟩ := h3 mi m (by omega) hold
+  rw [hs2]
+  exact ⟨a1, by rw [a2, show s1.heap = s.heap from e2]⟩
+
 /-! ### the headline theorems, about the translated definitions -/
 
 /-- `translate(t)` then `translate(-t)`, both as written in the source, restore every coordinate of the mesh -/
